@@ -984,6 +984,151 @@ example : ((attempts (timerRun ⟨.temporary, 60⟩ ⟨none, some 25, none, some
     [(.arbitrary, 1), (.arbitrary, 1), (.arbitrary, 1), (.ok, 0)])).map (fun a => (a.time, a.out.invoked, a.out.exc))) =
     [(0, true, .raised), (11, true, .raised), (22, true, .timeout)] := by decide
 
+/-! ## The retry number counts the handler's OWN attempts (whatever else happens in between)
+
+  In every driver the state is updated with the outcomes of THIS iteration only
+  (`state.with_outcomes(current_outcomes)`): a cycle in which the handler was not executed — it is
+  sleeping while a sibling handler of the same activity / cause is retried — leaves its record
+  untouched (`run`: the idle branch continues with the same `r`). Consequences, for every history: -/
+
+/-- The n-th attempt has retry number `stored + n`: cycles in which the handler was not executed
+    (idle cycles, restarts, other handlers' retries) neither increment it nor re-delay the handler. -/
+theorem retry_counts_own_attempts_partial (env : Env) (l : Limits) (steps : List Step) :
+    ∀ (now : Int) (r : Rec) (n : Nat) (a : Attempt),
+      (attempts (run env l now r steps))[n]? = some a → a.retry = r.retries + n := by
+  induction steps with
+  | nil => intro now r n a h; simp [run, attempts] at h
+  | cons s rest ih =>
+    intro now r n a h
+    cases s with
+    | restart dn => rw [run_restart, attempts_cons_restarted] at h; exact ih _ _ n a h
+    | cycle dt wait x dur lag =>
+      cases hg : r.awakened (now + dt) with
+      | false => rw [run_cycle_idle _ _ _ _ _ _ _ _ _ _ hg, attempts_cons_idle] at h; exact ih _ _ n a h
+      | true =>
+        rw [run_cycle_awake _ _ _ _ _ _ _ _ _ _ hg, attempts_cons_att] at h
+        cases n with
+        | zero => rw [List.getElem?_cons_zero] at h; cases h; simp
+        | succ m =>
+          rw [List.getElem?_cons_succ] at h
+          have := ih _ _ m a h
+          rw [attemptAt_rec_retries] at this
+          omega
+
+/-- An idle cycle changes nothing: the rest of the history is the history of the SAME record. -/
+theorem uninvoked_state_unchanged (env : Env) (l : Limits) (now : Int) (r : Rec) (dt wait : Nat) (x : Raised)
+    (dur lag : Nat) (rest : List Step) (h : r.awakened (now + dt) = false) :
+    attempts (run env l now r (.cycle dt wait x dur lag :: rest)) = attempts (run env l (now + dt) r rest) := by
+  rw [run_cycle_idle _ _ _ _ _ _ _ _ _ _ h, attempts_cons_idle]
+
+/-- A verdict "retries exceeded" names the limit and comes only after the stored count reached it. -/
+theorem classify_exc_retries (env : Env) (l : Limits) (r : Rec) (now : Int) (dur : Nat) (x : Raised)
+    (h : (classify env l r now dur x).exc = .retries) :
+    ∃ N, l.retries = some N ∧
+      (((classify env l r now dur x).invoked = false ∧ r.retries ≥ N) ∨
+       ((classify env l r now dur x).invoked = true ∧ r.retries + 1 ≥ N)) := by
+  cases hp : precheck l r now with
+  | some e =>
+    rw [classify_of_precheck_some hp] at h ⊢
+    simp only at h
+    subst h
+    unfold precheck at hp
+    split at hp
+    · cases hp
+    · split at hp
+      · rename_i hro
+        obtain ⟨N, hN, hge⟩ := (retriesOut_true_iff l _).1 hro
+        exact ⟨N, hN, Or.inl ⟨rfl, hge⟩⟩
+      · cases hp
+  | none =>
+    rw [classify_of_precheck_none hp] at h ⊢
+    have key : ∀ (d : Option Int) (extra : Int) (o : Outcome), RetriedOrLimit l r (now + dur) o d extra →
+        o.exc = .retries → ∃ N, l.retries = some N ∧ ((o.invoked = false ∧ r.retries ≥ N) ∨
+          (o.invoked = true ∧ r.retries + 1 ≥ N)) := by
+      intro d extra o ho he
+      rcases ho.2 with ⟨heq, _⟩ | ⟨heq, _⟩ | ⟨heq, N, hN, hge⟩
+      · rw [heq] at he; simp [retryWith] at he
+      · rw [heq] at he; simp [finalWith] at he
+      · exact ⟨N, hN, Or.inr ⟨ho.1, hge⟩⟩
+    cases x with
+    | ok => simp [post, finalWith] at h
+    | permanent => simp [post, finalWith] at h
+    | childrenRetry d => simp [post, retryWith] at h
+    | temporary d => exact key _ _ _ (post_temporary_verdict env l r (now + dur) d) h
+    | arbitrary =>
+      cases hm : l.mode env with
+      | ignored => simp [post, hm, finalWith] at h
+      | permanent => simp [post, hm, finalWith] at h
+      | temporary => exact key _ _ _ (post_arbitrary_verdict env l r (now + dur) hm) h
+
+/-- "recorded as failed for good BY RETRIES only after N invocations": in a history from a fresh record,
+    when the n-th attempt ends with the verdict "retries exceeded", all `n` earlier attempts were real
+    invocations of this handler and, counting this one if it was invoked, there were at least `N`. -/
+theorem retries_verdict_only_after_N_partial (env : Env) (l : Limits) (now t0 : Int) (steps : List Step)
+    (n : Nat) (a : Attempt) (ha : (attempts (run env l now (fromScratch t0) steps))[n]? = some a)
+    (he : a.out.exc = .retries) :
+    (∀ m b, m < n → (attempts (run env l now (fromScratch t0) steps))[m]? = some b → b.out.invoked = true) ∧
+    ∃ N, l.retries = some N ∧ (n : Int) + (if a.out.invoked then 1 else 0) ≥ N := by
+  have hret := retry_counts_own_attempts_partial env l steps now (fromScratch t0) n a ha
+  constructor
+  · intro m b hm hb
+    -- an earlier attempt is not final (`final_is_last_partial`), and a refusal is final
+    cases hi : b.out.invoked with
+    | true => rfl
+    | false =>
+      exfalso
+      have hfin : b.out.final = true := by
+        -- every attempt of a run is an `attemptAt`; a refusal is final by `limits_refuse`
+        have key : ∀ (steps : List Step) (now : Int) (r : Rec) (b : Attempt),
+            b ∈ attempts (run env l now r steps) → b.out.invoked = false → b.out.final = true := by
+          intro steps
+          induction steps with
+          | nil => intro now r b h; cases h
+          | cons s rest ih =>
+            intro now r b h hb
+            cases s with
+            | restart dn => rw [run_restart, attempts_cons_restarted] at h; exact ih _ _ b h hb
+            | cycle dt wait x dur lag =>
+              cases hg : r.awakened (now + dt) with
+              | false => rw [run_cycle_idle _ _ _ _ _ _ _ _ _ _ hg, attempts_cons_idle] at h; exact ih _ _ b h hb
+              | true =>
+                rw [run_cycle_awake _ _ _ _ _ _ _ _ _ _ hg, attempts_cons_att] at h
+                rcases List.mem_cons.1 h with rfl | h'
+                · exact ((limits_refuse env l r _ dur x 0).2 hb).1
+                · exact ih _ _ b h' hb
+        exact key steps now _ b (List.mem_of_getElem? hb) hi
+      have hlen := final_is_last_partial env l now (fromScratch t0) steps m b hb hfin
+      have hn := (List.getElem?_eq_some_iff.1 ha).1
+      omega
+  · -- the verdict itself
+    have hmem : a ∈ attempts (run env l now (fromScratch t0) steps) := List.mem_of_getElem? ha
+    have key : ∀ (steps : List Step) (now : Int) (r : Rec) (a : Attempt),
+        a ∈ attempts (run env l now r steps) → a.out.exc = .retries →
+        ∃ N, l.retries = some N ∧ a.retry + (if a.out.invoked then 1 else 0) ≥ N := by
+      intro steps
+      induction steps with
+      | nil => intro now r a h; cases h
+      | cons s rest ih =>
+        intro now r a h he
+        cases s with
+        | restart dn => rw [run_restart, attempts_cons_restarted] at h; exact ih _ _ a h he
+        | cycle dt wait x dur lag =>
+          cases hg : r.awakened (now + dt) with
+          | false => rw [run_cycle_idle _ _ _ _ _ _ _ _ _ _ hg, attempts_cons_idle] at h; exact ih _ _ a h he
+          | true =>
+            rw [run_cycle_awake _ _ _ _ _ _ _ _ _ _ hg, attempts_cons_att] at h
+            rcases List.mem_cons.1 h with rfl | h'
+            · simp only [attemptAt_out, attemptAt_retry] at he ⊢
+              obtain ⟨N, hN, h1 | h1⟩ := classify_exc_retries env l r _ dur x he
+              · exact ⟨N, hN, by simp only [h1.1]; simp; omega⟩
+              · exact ⟨N, hN, by simp only [h1.1]; simp; omega⟩
+            · exact ih _ _ a h' he
+    obtain ⟨N, hN, hge⟩ := key steps now _ a hmem he
+    refine ⟨N, hN, ?_⟩
+    rw [hret] at hge
+    simp only [fromScratch] at hge
+    omega
+
 /-! ## "is retried" and "is recorded as failed for good" as events (progress) -/
 
 /-- A due, unfinished handler within its limits IS invoked in the cycle: the head event of the run is
@@ -1277,6 +1422,11 @@ example : childrenRaised [⟨0, some 5, none, 1, true, false⟩, ⟨0, some 6, n
 example : ((run envD ⟨none, none, some 3, some 1024⟩ 0 (fromScratch 0) demoSteps).map
     (fun e => match e with | .att a => some (a.time, a.retry) | _ => none)) =
     [some (0, 0), none, none, some (1024, 1), some (1072, 2), none] := by decide
+-- `retries_verdict_only_after_N_partial`: retries = 2, an idle cycle in between (a sibling's retry): the
+-- verdict "retries" comes with the second invocation, retry numbers 0, 1
+example : ((attempts (run envD ⟨none, none, some 2, some 64⟩ 0 (fromScratch 0)
+    [.cycle 0 0 .arbitrary 0 0, .cycle 16 0 .ok 0 0, .cycle 48 0 .arbitrary 0 0])).map
+    (fun a => (a.retry, a.out.invoked, a.out.exc))) = [(0, true, .raised), (1, true, .retries)] := by decide
 -- the environment fold with nothing stale and nothing lost is `run` (hypothesis of the `_partial`s)
 example : runEnv envD ⟨none, none, some 3, some 1024⟩ 0 [fromScratch 0] (demoSteps.map Step.lift) =
     run envD ⟨none, none, some 3, some 1024⟩ 0 (fromScratch 0) demoSteps := by decide
